@@ -113,6 +113,54 @@ fn pair_cases(g: &Grammar, d: &CDoc, out: &mut Vec<Case>) {
     }
 }
 
+/// IF_DATA payloads (interpreted through an in-file A2ML definition and uninterpreted), all on one line or one
+/// token per line, with one gap between two payload tokens changed
+fn ifdata_layout_cases(out: &mut Vec<Case>) {
+    for (pn, pl) in c01::IFDATA_PAYLOADS {
+        let ptoks: Vec<&str> = pl.split_whitespace().collect();
+        if ptoks.is_empty() {
+            continue;
+        }
+        let mut bt = vec!["/begin", "IF_DATA"];
+        bt.extend(ptoks.iter().copied());
+        bt.extend(["/end", "IF_DATA"]);
+        for with_a2ml in [false, true] {
+            let head = vcore::ifdoc::doc_text(with_a2ml.then(|| c01::IFDATA_A2ML.trim()), &[]);
+            let head = head.strip_suffix("  /end MODULE\n/end PROJECT\n").unwrap().to_string();
+            for (bn, base) in [("one-line", " "), ("line-per-token", "\n      ")] {
+                let mut variants: Vec<(String, Option<(usize, &str)>)> = vec![(format!("ifdata-{bn}"), None)];
+                for gap in 2..bt.len() - 1 {
+                    if bt[gap - 1] == "/begin" || bt[gap - 1] == "/end" {
+                        continue;
+                    }
+                    for (n, w) in WS {
+                        if w.trim_matches(' ') == base.trim_matches(' ') {
+                            continue;
+                        }
+                        variants.push((format!("ifdata-ws:{n}@{bn}"), Some((gap, w))));
+                    }
+                }
+                for (class, var) in variants {
+                    let mut t = head.clone();
+                    t.push_str("    ");
+                    for (i, tok) in bt.iter().enumerate() {
+                        if i > 0 {
+                            let default = if bt[i - 1] == "/begin" || bt[i - 1] == "/end" { " " } else { base };
+                            t.push_str(match var {
+                                Some((g, w)) if g == i => w,
+                                _ => default,
+                            });
+                        }
+                        t.push_str(tok);
+                    }
+                    t.push_str("\n  /end MODULE\n/end PROJECT\n");
+                    out.push(Case { label: format!("ifdata({pn},a2ml={with_a2ml}) {class} {var:?}"), class, text: t, spec: None, parts: vec![] });
+                }
+            }
+        }
+    }
+}
+
 pub enum LV {
     OutOfScope(&'static str),
     Ok,
@@ -442,6 +490,7 @@ pub fn run(tier: &str) -> Run {
         cases.push(Case { label: format!("{} + crlf", d.label), class: "crlf-document".into(), text: d.doc.text().replace('\n', "\r\n"), spec: None, parts: vec![] });
         layout_cases(&g, d, &mut cases);
     }
+    ifdata_layout_cases(&mut cases);
     let pair_tags: &[&str] = if thorough { &["MEASUREMENT", "ANNOTATION_TEXT", "A2ML", "IF_DATA", "FNC_VALUES", "VAR_CRITERION", "HEADER", "COMPU_VTAB", "MEMORY_SEGMENT", "FUNCTION_LIST", "FORMULA", "SYMBOL_LINK"] } else { &["ANNOTATION_TEXT", "FORMULA"] };
     for t in pair_tags {
         if let Some(d) = carriers.iter().find(|c| c.label == format!("carrier({t})")) {
@@ -522,10 +571,11 @@ pub fn run(tier: &str) -> Run {
     }
     run.require("ws: lines preserved", 1000);
     run.require("cm: lines preserved", 500);
+    run.require("ifdata-ws: lines preserved", 300);
     run.require("edit EditStr: local", 50);
     run.require("edit Remove: local", 50);
     run.require("edit Push: local", 30);
-    run.rule = "(i)+(ii): every carrier and rich document x 7 whitespace shapes at every gap allowed by the scope (/begin,/end on the line of their tag; A2ML /end on its own line) x 7 comment shapes at every block-level gap, CRLF, all pairs on selected documents; oracle: same significant tokens on the same line numbers (reference tokenizer on both texts) and write(load(output)) == output. (iii): per module-level list kind a 3-element document in 3 layouts x {edit string field, edit numeric field, remove first/middle/last, push a builder-made element with/without sort_new_items}; oracle: new text == old text with exactly the object's lines (incl. its leading blank lines) changed/removed/inserted.".into();
+    run.rule = "(i)+(ii): every carrier and rich document x 7 whitespace shapes at every gap allowed by the scope (/begin,/end on the line of their tag; A2ML /end on its own line) x 7 comment shapes at every block-level gap, CRLF, all pairs on selected documents; 10 IF_DATA payloads (interpreted through an in-file A2ML definition and uninterpreted: nested blocks, hex, floats, wide integers, strings) written on one line and one token per line x 7 whitespace shapes at every gap between payload tokens; oracle: same significant tokens on the same line numbers (reference tokenizer on both texts) and write(load(output)) == output. (iii): per module-level list kind a 3-element document in 3 layouts x {edit string field, edit numeric field, remove first/middle/last, push a builder-made element with/without sort_new_items}; oracle: new text == old text with exactly the object's lines (incl. its leading blank lines) changed/removed/inserted.".into();
     run.assumptions = vec!["scope as in the quantifier (canonical element order, include-free, no raw line breaks in strings)".into()];
     run
 }
